@@ -11,6 +11,7 @@ mod screen;
 mod border;
 mod snapshot;
 mod vtxrec;
+mod audio;
 
 fn main() {
     let mut it = std::env::args().skip(1);
@@ -46,6 +47,7 @@ fn main() {
         "border" => border::run(&args),
         "snapshot" => snapshot::run(&args),
         "vtx" => vtxrec::run(&args),
+        "audio" => audio::run(&args),
         "portsdbg" => ports::debug(),
         _ => {
             eprintln!("unknown sub-command {cmd:?}");
